@@ -1401,12 +1401,11 @@ func compileTableExpr(context *funcContext, reg int, ex *ast.TableExpr, ec *expc
 			if field.Key != nil {
 				line = field.Key
 			}
-			if c > 511 {
-				c = 0
-			}
-			code.AddABC(OP_SETLIST, tablereg, b, c, sline(line))
-			if c == 0 {
+			if c > opMaxArgsC {
+				code.AddABC(OP_SETLIST, tablereg, b, 0, sline(line))
 				code.Add(uint32(c), sline(line))
+			} else {
+				code.AddABC(OP_SETLIST, tablereg, b, c, sline(line))
 			}
 		}
 	}
@@ -1782,9 +1781,16 @@ func patchCode(context *funcContext) { // {{{
 			pc += int(context.Proto.FunctionPrototypes[opGetArgBx(inst)].NumUpvalues)
 			moven = 0
 			continue
+		case OP_SETLIST:
+			if opGetArgC(inst) == 0 {
+				// the next word is the batch number, not an instruction
+				pc++
+				moven = 0
+				continue
+			}
 		case OP_SETGLOBAL, OP_SETUPVAL, OP_EQ, OP_LT, OP_LE, OP_TEST,
 			OP_TAILCALL, OP_RETURN, OP_FORPREP, OP_FORLOOP, OP_TFORLOOP,
-			OP_SETLIST, OP_CLOSE:
+			OP_CLOSE:
 			/* nothing to do */
 		case OP_CALL:
 			if reg := opGetArgA(inst) + opGetArgC(inst) - 2; reg > maxreg {
